@@ -4,10 +4,10 @@ package main
 // (define-fun per hash-consed term), queries as check-sat-assuming over named Bool terms.
 
 import (
-	"os"
 	"bufio"
 	"fmt"
 	"io"
+	"os"
 	"os/exec"
 	"strconv"
 	"strings"
@@ -39,22 +39,25 @@ var solverSpecs = map[string]SolverSpec{
 }
 
 type Solver struct {
-	spec      SolverSpec
-	cmd       *exec.Cmd
-	in        io.WriteCloser
-	out       *bufio.Reader
-	defined   map[int32]bool
-	declared  map[string]bool
-	timeoutMs int
-	Queries   int
-	SatN      int
-	UnsatN    int
-	UnknownN  int
-	Time      time.Duration
-	errors    []string
-	log       io.Writer
-	dead      bool
-	stderr    *strings.Builder
+	spec        SolverSpec
+	cmd         *exec.Cmd
+	in          io.WriteCloser
+	out         *bufio.Reader
+	defined     map[int32]bool
+	declared    map[string]bool
+	timeoutMs   int
+	Queries     int
+	SatN        int
+	UnsatN      int
+	UnknownN    int
+	Time        time.Duration
+	errors      []string
+	log         io.Writer
+	dead        bool
+	pendingDecl []*Term
+	lastQuery   string
+	fresh       bool // one-shot mode: (reset) before every check, plain (check-sat)
+	stderr      *strings.Builder
 }
 
 func NewSolver(name string, timeoutMs int) (*Solver, error) {
@@ -195,6 +198,10 @@ func (s *Solver) readLine() (string, error) {
 
 // Declare makes sure the given variables exist in the solver (so that get-value can name them after a check).
 func (s *Solver) Declare(vars []*Term) {
+	if s.fresh {
+		s.pendingDecl = vars
+		return
+	}
 	var sb strings.Builder
 	for _, v := range vars {
 		if !s.declared[v.name] {
@@ -216,20 +223,51 @@ func (s *Solver) Check(conds []*Term) Result {
 	}
 	t0 := time.Now()
 	var sb strings.Builder
+	if s.fresh {
+		// a fresh context lets z3 use its full preprocessing + bit-blasting pipeline instead of the incremental core
+		sb.WriteString("(reset)\n(set-option :produce-models true)\n")
+		if s.timeoutMs > 0 {
+			fmt.Fprintf(&sb, "(set-option :timeout %d)\n", s.timeoutMs)
+		}
+		s.defined = map[int32]bool{}
+		s.declared = map[string]bool{}
+		for _, v := range s.pendingDecl {
+			if !s.declared[v.name] {
+				s.declared[v.name] = true
+				fmt.Fprintf(&sb, "(declare-const %s %s)\n", quoteName(v.name), v.sort)
+			}
+		}
+	}
 	for _, c := range conds {
 		s.define(c, &sb)
 	}
-	sb.WriteString("(check-sat-assuming (")
-	for _, c := range conds {
-		if c.IsTrue() {
-			continue
+	if s.fresh {
+		for _, c := range conds {
+			if c.IsTrue() {
+				continue
+			}
+			sb.WriteString("(assert ")
+			sb.WriteString(termRef(c))
+			sb.WriteString(")\n")
 		}
-		sb.WriteString(termRef(c))
-		sb.WriteString(" ")
+		sb.WriteString("(check-sat)\n")
+	} else {
+		sb.WriteString("(check-sat-assuming (")
+		for _, c := range conds {
+			if c.IsTrue() {
+				continue
+			}
+			sb.WriteString(termRef(c))
+			sb.WriteString(" ")
+		}
+		sb.WriteString("))\n")
 	}
-	sb.WriteString("))\n")
 	s.send(sb.String())
 	s.Queries++
+	s.lastQuery = ""
+	if s.fresh {
+		s.lastQuery = sb.String()
+	}
 	res := Unknown
 	for {
 		line, err := s.readLine()
@@ -277,6 +315,10 @@ func (s *Solver) Check(conds []*Term) Result {
 		s.UnsatN++
 	default:
 		s.UnknownN++
+		if d := os.Getenv("VERIF_DUMP_UNKNOWN"); d != "" && s.lastQuery != "" {
+			solverLogN++
+			os.WriteFile(fmt.Sprintf("%s/unknown-%d-%d.smt2", d, os.Getpid(), solverLogN), []byte(s.lastQuery), 0o644)
+		}
 	}
 	s.Time += time.Since(t0)
 	return res
